@@ -53,6 +53,8 @@ THEOREMS: list[str] = [
     "IrVerif.Inline.C05_call_depth",
     "IrVerif.Inline.C05_unused_functions",
     "IrVerif.Inline.C05_unused_opsets",
+    "IrVerif.Inline.C05_inline_canonical",
+    "IrVerif.Inline.C05_add_defaults",
 ]
 ASSUMPTIONS = [
     "operator semantics = onnx.reference.ReferenceEvaluator (onnx 1.22) on 2 generated input sets per model; "
@@ -75,7 +77,8 @@ ASSUMPTIONS = [
     "flatFuncs (extra hypothesis of C05_inline_partial) and pureMain (hypothesis of C05_coherent) are evaluated by "
     "the driver on every generated case: fcorr_valid / fcorr_hyp_inline / fcorr_hyp_nested / fcorr_flat / "
     "fcorr_hyp_partial / fcorr_pure_main_* / fcorr_assumption_unmet in the distribution",
-    "InlinePass model: total function; when a call does not supply a function input that the function returns the "
+    "InlinePass model: total function; when a call does not supply a function input that the function returns, or "
+    "has FEWER OUTPUTS than its function (wave 5; replace_all_uses_with: ValueError), the "
     "real pass raises and the model predicts it (flag raised, fcorr_raised_predicted); the other error exits of the "
     "real pass (opset version mismatch, graph attribute parameters, more inputs than the function has, outer-scope "
     "value in a function body, a local function ::Identity) are outside validF: when the real pass raises, the driver "
@@ -88,7 +91,27 @@ ASSUMPTIONS = [
     "hypotheses of the theorems (validModel: SSA, outputs bound in their graph, topologically ordered, scoped) "
     "are evaluated by the driver on every generated case: counted as "
     "corr_valid / corr_chain_ok / corr_assumption_unmet in the distribution",
-    "no Lean model (differential only): AddDefaultAttributesPass, ShapeInferencePass, CheckerPass (ONNX C++ "
+    "AddDefaultAttributesPass (Model/AddDefaults.lean, theorem C05_add_defaults; wave 5): ONNX's schema tables are a "
+    "PARAMETER of the model.  On every run the harness dumps from onnx.defs, for every (domain, operator type) of the "
+    "case x every opset version that occurs in it (imports of the main graph and of the functions, ir.Node.version), "
+    "the attribute declarations of the schema (name, required, default decoded from the AttributeProto without "
+    "onnx_ir, null for a default of type UNDEFINED; null entry = SchemaError) and hands them to the driver together "
+    "with the main graph's opset imports and the per-node versions; the model does the look-up.  Hypotheses of the "
+    "theorem: callsUntouched (decidable; a node that calls a model-local function gets no new attribute: "
+    "fcorr_hyp_add_defaults) and DefaultRespecting (at the schema the pass looks up, the operator interpretation "
+    "cannot tell an absent optional attribute from its default): a statement about the operator semantics, whose "
+    "instances the ReferenceEvaluator oracle checks (outputs before = outputs after on every generated model and on "
+    "the hand-built models of _defaults_edge_models); graph-valued attributes have no names in the modelled IR",
+    "defaults-versions stream (correspondence only): every generated model once more with random ir.Node.version "
+    "values (1..21, 1000), the main graph's import of the default domain changed or deleted and the functions' imports "
+    "changed: the version look-up of AddDefaultAttributesPass (node.version, else the MAIN graph's import - also for "
+    "nodes of function bodies -, else skip; schema of the largest since_version <= version, no schema => skip)",
+    "short-outputs stream (correspondence only; observation D302): every generated model with functions once more with "
+    "an extra output appended to one function, so that its calls have fewer outputs than the function: such models "
+    "pass check_model(full_check=False) and the ReferenceEvaluator but are rejected by the strict checker and by "
+    "onnxruntime; the real InlinePass raises ValueError when it instantiates such a call and returns otherwise; the "
+    "model must predict which (fcorr_raised_predicted:ValueError)",
+    "no Lean model (differential only): ShapeInferencePass, CheckerPass (ONNX C++ "
     "schemas), and the schema-driven optional-output "
     "trimming inside RemoveUnusedNodesPass (the correspondence runs that pass with _remove_unused_optional_outputs "
     "disabled; the oracle runs the real pass)",
@@ -147,7 +170,7 @@ MODELLED = {
 }
 # no Lean model (differential only: the oracle above is the whole check for these)
 UNMODELLED_NOTE = (
-    "AddDefaultAttributesPass, ShapeInferencePass, CheckerPass (ONNX C++ schemas) and the schema-driven output "
+    "ShapeInferencePass, CheckerPass (ONNX C++ schemas) and the schema-driven output "
     "trimming of RemoveUnusedNodesPass"
 )
 
@@ -645,7 +668,76 @@ FMODELLED = {
     "RemoveUnusedFunctionsPass": ("inline.ruf", {}),
     "RemoveUnusedOpsetsPass": ("inline.ruo", {"pf": True}),
     "RemoveUnusedOpsetsPass(no_functions)": ("inline.ruo", {"pf": False}),
+    # Model/AddDefaults.lean: the schema table is a parameter of the model; the request carries the part of
+    # onnx.defs the case can reach (`_schema_table`), the main graph's opset imports and the per-node versions
+    "AddDefaultAttributesPass": ("inline.defaults", {}),
 }
+
+
+_SCHEMA_CACHE: dict[tuple, list | None] = {}
+
+
+def _schema_default(dv) -> dict | None:
+    """the default value of a schema attribute as the driver's attribute encoding, read from the AttributeProto
+    (not through onnx_ir); None = `_has_valid_default` is false"""
+    A = onnx.AttributeProto
+    if dv is None or dv.type == A.UNDEFINED:
+        return None
+    if dv.type == A.INT:
+        return {"k": "int", "v": int(dv.i)}
+    if dv.type == A.FLOAT:
+        return {"k": "float", "v": _f32bits(float(dv.f))}
+    if dv.type == A.STRING:
+        return {"k": "str", "v": list(bytes(dv.s))}
+    if dv.type == A.INTS:
+        return {"k": "ints", "v": [int(x) for x in dv.ints]}
+    if dv.type == A.FLOATS:
+        return {"k": "floats", "v": [_f32bits(float(x)) for x in dv.floats]}
+    if dv.type == A.STRINGS:
+        return {"k": "strs", "v": [list(bytes(x)) for x in dv.strings]}
+    raise Unencodable(f"schema default of attribute type {int(dv.type)}")
+
+
+def _schema_entry(domain: str, op_type: str, version: int) -> list | None:
+    """`onnx.defs.get_schema(op_type, version, domain).attributes` as [[name, required, default | None]] in the order
+    of `.items()`; None = SchemaError (no schema: the pass skips the node)"""
+    key = (domain, op_type, version)
+    if key not in _SCHEMA_CACHE:
+        try:
+            sch = onnx.defs.get_schema(op_type, version, domain=domain)
+        except onnx.defs.SchemaError:
+            _SCHEMA_CACHE[key] = None
+        else:
+            _SCHEMA_CACHE[key] = [[name, bool(ad.required), _schema_default(ad.default_value)]
+                                  for name, ad in sch.attributes.items()]
+    return _SCHEMA_CACHE[key]
+
+
+def _all_nodes(model):
+    import onnx_ir as ir
+
+    yield from ir.traversal.RecursiveGraphIterator(model.graph)
+    for f in model.functions.values():
+        yield from ir.traversal.RecursiveGraphIterator(f)
+
+
+def _defaults_request(model, fenc) -> dict:
+    """what the model of AddDefaultAttributesPass needs beside the FModel: the main graph's opset imports with their
+    versions, `node.version` of the nodes that have one (keyed by the node's output ids) and the schema table for
+    every (domain, operator type) of the model x every version that occurs anywhere in it (imports of the main graph
+    and of the functions, node versions): the model does the look-up, the table offers more than it should need"""
+    versions = set(model.graph.opset_imports.values())
+    for f in model.functions.values():
+        versions.update(f.opset_imports.values())
+    ops, nver = set(), []
+    for n in _all_nodes(model):
+        ops.add((n.domain, n.op_type))
+        if n.version is not None:
+            versions.add(int(n.version))
+            nver.append([[fenc.vid(o) for o in n.outputs], int(n.version)])
+    versions = sorted(v for v in versions if isinstance(v, int) and v >= 0)
+    table = [[[d, t, v], _schema_entry(d, t, v)] for (d, t) in sorted(ops) for v in versions]
+    return {"imports": [[d, int(v)] for d, v in model.graph.opset_imports.items()], "nver": nver, "table": table}
 
 
 def _crit_even(f) -> bool:
@@ -767,7 +859,10 @@ def _fcorr_step(part, case_id, name: str, model, where, crit=None) -> bool:
     again, queue the driver request; returns False when the real pass raised"""
     cmd, extra = FMODELLED[name]
     try:
-        before = FEncoder().model(model)
+        fenc = FEncoder()
+        before = fenc.model(model)
+        if cmd == "inline.defaults":
+            extra = {**extra, **_defaults_request(model, fenc)}
     except Unencodable as e:
         part.count("fcorr_skipped:unencodable:" + str(e)[:40])
         try:
@@ -847,6 +942,11 @@ def _fcorr_check(part, req, kind, where, expect, case_id, out) -> None:
         part.count("fcorr_pure_main_after=" + str(out.get("pure_after")))
         # C05_inline: any criteria, validF, any nesting depth
         part.count("fcorr_hyp_inline=" + str(bool(out.get("valid"))))
+        # C05_inline_canonical: the result of a valid model has call depth <= ITS number of functions (<= that of the model)
+        part.count("fcorr_canon_depth=" + str(out.get("canon_depth")))
+        if out.get("valid") and not out.get("canon_depth"):
+            part.disagree(f"{name} at {where[0]}: the result of the model of the pass on a valid model is deeper than its "
+                          f"number of functions (contradicts C05_inline_canonical)", case_id, None, None)
         flags = {k: out.get(k) for k in ("stuck", "dangling", "accepted_left", "raised", "syn_bad", "depth_bad")}
         if any(flags.values()):
             part.disagree(f"{name} at {where[0]}: the model fell back to the unchanged model ({flags}) although the "
@@ -857,6 +957,23 @@ def _fcorr_check(part, req, kind, where, expect, case_id, out) -> None:
         part.count("fcorr_inlined=" + ("0" if not out.get("count") else "1-2" if out["count"] <= 2 else "3-5" if out["count"] <= 5 else ">5"))
         if where[3]:
             part.count("fcorr_with_criteria")
+    elif cmd == "inline.defaults":
+        # decidable hypothesis of C05_add_defaults (a call of a model-local function gets no new attribute) and what
+        # the case exercises; the other hypothesis (the operator interpretation respects the defaults) is what the
+        # ReferenceEvaluator oracle checks on the same models
+        part.count("fcorr_hyp_add_defaults=" + str(out.get("calls_untouched")))
+        if not out.get("calls_untouched"):
+            part.count("fcorr_assumption_unmet:add_defaults_touches_call")
+        t = out.get("touched", 0)
+        part.count("fcorr_defaults_touched_nodes=" + ("0" if not t else "1-2" if t <= 2 else "3-9" if t <= 9 else ">=10"))
+        part.count("fcorr_defaults_nodes", out.get("nodes", 0))
+        part.count("fcorr_defaults_nodes_with_schema", out.get("with_schema", 0))
+        part.count("fcorr_defaults_nodes_touched", t)
+        if req.get("nver"):
+            part.count("fcorr_defaults_node_versions")
+        if bool(out.get("modified")) != modified:
+            part.disagree(f"{name} at {where[0]}: modified flag {modified} but the model says {out.get('modified')}",
+                          case_id, out.get("modified"), modified)
     elif cmd == "inline.ruf":
         if not out.get("closed"):
             part.disagree(f"{name} at {where[0]}: the model's used set is not closed", case_id, out.get("used"), None)
@@ -3427,10 +3544,28 @@ def _fn_edge_models() -> list[tuple[str, bytes]]:
     f_if = oh.make_function("local", "Fi", ["a", "c"], ["b"],
                             [oh.make_node("If", ["c"], ["b"], then_branch=f_then, else_branch=f_else)], imp[:1])
     add("if_in_function", [cond, call("Fi", ["x", "c"], ["u"]), call("Fi", ["u", "c"], ["y"])], [f_if])
+    # a call with FEWER OUTPUTS than its function (wave 5): accepted by check_model(full_check=False) and evaluated by
+    # the ReferenceEvaluator, rejected by the strict checker and by onnxruntime ("output index out of range"); the real
+    # InlinePass raises ValueError in replace_all_uses_with (number of values and replacements must match); the model
+    # of the pass predicts the raise (flag `raised`).  Correspondence only (observation D302).
+    f_two = oh.make_function("local", "F2", ["a"], ["b", "c"],
+                             [oh.make_node("Neg", ["a"], ["b"]), oh.make_node("Abs", ["a"], ["c"])], imp[:1])
+    add("short_outputs", [call("F2", ["x"], ["y"])], [f_two])
+    g_two = oh.make_function("local", "G2", ["a"], ["r"], [call("F2", ["a"], ["r"])], imp)
+    add("short_outputs_nested", [call("G2", ["x"], ["y"])], [f_two, g_two])
+    # kept function (criteria=even keeps G2? whichever): the body of a function that is left is rewritten in place
+    add("short_outputs_unused_caller", [oh.make_node("Neg", ["x"], ["y"])], [f_two, g_two])
+    # the omitted output is a returned input that the call does not supply either (None beyond the call's outputs)
+    add("short_outputs_none_beyond", [call("Fp", ["x"], ["y"])], [f_pass])
+    # one call with all outputs, one with fewer
+    add("short_outputs_mixed", [call("F2", ["x"], ["p", "q"]), call("F2", ["p"], ["r"]), oh.make_node("Add", ["r", "q"], ["y"])],
+        [f_two])
     return out
 
 
-_FN_EDGE_CORR_ONLY = {"passthrough_short_call", "passthrough_short_nested", "identity_function"}
+_FN_EDGE_CORR_ONLY = {"passthrough_short_call", "passthrough_short_nested", "identity_function", "short_outputs",
+                      "short_outputs_nested", "short_outputs_unused_caller", "short_outputs_none_beyond",
+                      "short_outputs_mixed"}
 
 
 def _identity_function_model() -> bytes:
@@ -3509,6 +3644,134 @@ def _fn_edge_stream(part) -> None:
             correspond(part, case_id, lambda b=raw: ir.serde.deserialize_model(_parse(b)), seq)
 
 
+def _short_outputs_case(part, raw: bytes, seed_str: str, case_id: dict) -> None:
+    """wave 5: a generated model in which one function gets an extra output (a value of its body, one of its outputs
+    again, or one of its inputs), so that every call of it has FEWER OUTPUTS than the function: the real InlinePass
+    raises when it instantiates such a call (ValueError in replace_all_uses_with) and returns when it meets none (the
+    function is not called, or the criterion keeps it); the model of the pass must predict which (flag `raised`).
+    Correspondence only: the strict checker and onnxruntime reject these models."""
+    import onnx_ir as ir
+
+    for name in ("InlinePass", "InlinePass(criteria=even)"):
+        rng = random.Random(seed_str)
+        model = ir.serde.deserialize_model(_parse(raw))
+        funcs = [f for f in model.functions.values() if len(f.outputs) >= 1]
+        if not funcs:
+            part.count("short_outputs_stream:no_function")
+            return
+        f = rng.choice(funcs)
+        pool = [o for n in f for o in n.outputs] + list(f.outputs) + list(f.inputs)
+        f.outputs.append(rng.choice(pool))
+        part.count("short_outputs_cases")
+        _fcorr_step(part, {**case_id, "stream": "short-outputs", "seq": [name]}, name, model, "short-outputs")
+
+
+_DEF_VERSIONS = [1, 6, 9, 11, 13, 17, 18, 20, 21, 1000]
+
+
+def _defaults_versions_case(part, raw: bytes, seed_str: str, case_id: dict) -> None:
+    """wave 5: how AddDefaultAttributesPass finds the opset version: random nodes (main graph, subgraphs, function
+    bodies) get an `ir.Node.version`, the main graph's and the functions' imports of the default domain are changed or
+    deleted.  Correspondence only (`node.version` does not survive serialization, and the defaults of another opset
+    version need not suit the node)."""
+    import onnx_ir as ir
+
+    rng = random.Random(seed_str)
+    model = ir.serde.deserialize_model(_parse(raw))
+    for n in _all_nodes(model):
+        if rng.random() < 0.3:
+            n.version = rng.choice(_DEF_VERSIONS)
+    r = rng.random()
+    if r < 0.25:
+        model.graph.opset_imports.pop("", None)
+        part.count("defaults_versions:main_import_deleted")
+    elif r < 0.6:
+        model.graph.opset_imports[""] = rng.choice(_DEF_VERSIONS)
+    for f in model.functions.values():
+        if rng.random() < 0.4:
+            f.opset_imports[""] = rng.choice(_DEF_VERSIONS)
+    part.count("defaults_versions_cases")
+    _fcorr_step(part, {**case_id, "stream": "defaults-versions", "seq": ["AddDefaultAttributesPass"]},
+                "AddDefaultAttributesPass", model, "defaults-versions")
+
+
+def _defaults_edge_models() -> list[tuple[str, bytes, bool]]:
+    """hand-built models around AddDefaultAttributesPass: a default that changed between opset versions, nodes in
+    function bodies and in subgraphs, an attribute that is present as a REFERENCE, a function with its own (compatible)
+    opset import, a domain the main graph does not import, an operator without schema, a model-local function that
+    shadows an ONNX operator with defaults (the hypothesis `callsUntouched` of C05_add_defaults is false there)"""
+    vi = oh.make_tensor_value_info
+    FLOAT = onnx.AttributeProto.FLOAT
+    out: list[tuple[str, bytes, bool]] = []
+
+    def add(tag, nodes, funcs=(), imp=None, ins=(("x", [2, 3]),), outs=(("y", [2, 3]),), inits=()):
+        imp = imp or [oh.make_opsetid("", 18), oh.make_opsetid("local", 1)]
+        g = oh.make_graph(list(nodes), "g", [vi(n, _F, sh) for n, sh in ins], [vi(n, _F, sh) for n, sh in outs],
+                          initializer=list(inits))
+        m = oh.make_model(g, opset_imports=imp, ir_version=10, functions=list(funcs))
+        try:
+            onnx.checker.check_model(m)
+            ok = True
+        except Exception:  # noqa: BLE001
+            ok = False
+        out.append((tag, m.SerializeToString(), ok))
+
+    call = lambda name, i, o, **kw: oh.make_node(name, i, o, domain="local", **kw)  # noqa: E731
+    for v in (11, 13, 18):
+        add(f"softmax_opset{v}", [oh.make_node("Softmax", ["x"], ["y"])], imp=[oh.make_opsetid("", v)])
+    add("partly_present", [oh.make_node("Selu", ["x"], ["t"], gamma=1.5), oh.make_node("LeakyRelu", ["t"], ["u"]),
+                           oh.make_node("Gemm", ["u", "w"], ["y"], transB=1)],
+        ins=(("x", [2, 3]), ("w", [3, 3])))
+    lr = oh.make_node("LeakyRelu", ["a"], ["t"])
+    lr.attribute.append(_ref_attr("alpha", "alpha", FLOAT))
+    fb = oh.make_function("local", "Fa", ["a"], ["b"], [lr, oh.make_node("Softmax", ["t"], ["u"]),
+                                                         oh.make_node("LogSoftmax", ["u"], ["b"])],
+                          [oh.make_opsetid("", 18)], attributes=["alpha"])
+    add("function_body_ref_present", [call("Fa", ["x"], ["t"], alpha=0.25), oh.make_node("Elu", ["t"], ["y"])], [fb])
+    fb17 = oh.make_function("local", "Fb", ["a"], ["b"], [oh.make_node("Selu", ["a"], ["t"]),
+                                                           oh.make_node("HardSigmoid", ["t"], ["b"])],
+                            [oh.make_opsetid("", 17)])
+    add("function_other_opset", [call("Fb", ["x"], ["y"])], [fb17])
+    then_g = oh.make_graph([oh.make_node("Elu", ["x"], ["tb"])], "then", [], [vi("tb", _F, [2, 3])])
+    else_g = oh.make_graph([oh.make_node("ThresholdedRelu", ["x"], ["eb"])], "else", [], [vi("eb", _F, [2, 3])])
+    cond = oh.make_node("Constant", [], ["c"], value=onh.from_array(np.array(True), "cv"))
+    add("subgraphs", [cond, oh.make_node("If", ["c"], ["y"], then_branch=then_g, else_branch=else_g)])
+    add("domain_not_imported", [oh.make_node("Selu", ["x"], ["y"])], imp=[oh.make_opsetid("local", 1)])
+    add("no_schema", [oh.make_node("NoSuchOperator", ["x"], ["t"]), oh.make_node("Selu", ["t"], ["y"])])
+    shadow = oh.make_function("", "Selu", ["a"], ["b"], [oh.make_node("Neg", ["a"], ["b"])], [oh.make_opsetid("", 18)])
+    add("local_function_shadows_operator", [oh.make_node("Selu", ["x"], ["y"])], [shadow])
+    # a function in the default domain does not survive the checker's required-field test after a serde round trip
+    out[-1] = (out[-1][0], out[-1][1], False)
+    return out
+
+
+def _defaults_edge_stream(part) -> None:
+    import onnx_ir as ir
+
+    seqs = [["AddDefaultAttributesPass"], ["AddDefaultAttributesPass", "InlinePass"],
+            ["InlinePass", "AddDefaultAttributesPass", "CommonSubexpressionEliminationPass"],
+            ["AddDefaultAttributesPass", "AddDefaultAttributesPass"]]
+    state: dict = {}
+    for tag, raw, ok in _defaults_edge_models():
+        part.count("defaults_edge:" + tag + ("" if ok else ":corr_only"))
+        proto = _parse(raw)
+        inputs = None
+        if ok:
+            try:
+                inputs = _default_inputs(proto)
+            except Exception:  # noqa: BLE001
+                inputs = None
+        for seq in seqs:
+            if tag == "function_other_opset" and "InlinePass" in seq:
+                continue  # InlinePass refuses functions whose opset import differs from the model's (an error exit)
+            case_id = {"stream": "defaults-edge", "tag": tag, "sha1": _sha(raw), "seq": seq}
+            if inputs is not None:
+                oracle(part, case_id, proto, seq, inputs, {}, state)
+            correspond(part, case_id, lambda b=raw: ir.serde.deserialize_model(_parse(b)), seq)
+        for k in range(3):
+            _defaults_versions_case(part, raw, f"C05:defaults-edge:{tag}:{k}", {"tag": tag, "k": k})
+
+
 def _work(chunk: tuple) -> dict:
     seed, index, n_models = chunk
     _quiet()
@@ -3564,6 +3827,11 @@ def _work(chunk: tuple) -> dict:
                 nfeatures=nfeat, status=res["status"],
             )
             correspond(part, case_id, lambda b=raw: ir.serde.deserialize_model(_parse(b)), seq)
+        # wave 5: opset-version look-up of AddDefaultAttributesPass; calls with fewer outputs than the function
+        origin = {"seed": seed, "chunk": index, "model": mi, "sha1": sha}
+        _defaults_versions_case(part, raw, f"C05:defver:{seed}:{index}:{mi}", origin)
+        if proto.functions:
+            _short_outputs_case(part, raw, f"C05:shortout:{seed}:{index}:{mi}", origin)
     corr_flush(part)
     return part
 
@@ -3600,6 +3868,7 @@ def run(ctx: Ctx) -> None:
     _stochastic_twins_stream(part)
     _fn_edge_stream(part)
     _identity_function_stream(part)
+    _defaults_edge_stream(part)
     corr_flush(part)
     ctx.merge(part)
     n = ctx.pick(320, 6400)
@@ -3607,6 +3876,16 @@ def run(ctx: Ctx) -> None:
     chunks = [(ctx.seed, i, per[i]) for i in range(N_CHUNKS)]
     for p in pmap(_work, chunks):
         ctx.merge(p)
+    # coverage floors of the wave-5 streams (only on runs without failures / disagreements: a broken implementation
+    # may well starve a stream, and then the failures are the result)
+    floors = {"fcorr_agree:AddDefaultAttributesPass": ctx.pick(400, 4000), "fcorr_defaults_node_versions": ctx.pick(100, 1000),
+              "fcorr_raised_predicted:ValueError": ctx.pick(30, 300), "fcorr_canon_depth=True": ctx.pick(500, 5000)}
+    ctx.extra["coverage_floors"] = {k: {"got": ctx.dist.get(k, 0), "floor": v} for k, v in floors.items()}
+    thin = [k for k, v in floors.items() if ctx.dist.get(k, 0) < v]
+    if thin and not ctx.failures and not ctx.disagreements:
+        from harness.common import Infra
+
+        raise Infra(f"coverage floor not reached: {({k: ctx.extra['coverage_floors'][k] for k in thin})}")
     models = ctx.dist.get("models", 0)
     invalid = ctx.dist.get("gen_invalid", 0)
     ctx.notes.append(f"generated models: {models}, rejected before any pass (gen_invalid): {invalid}")
